@@ -61,6 +61,113 @@ theorem no_limit_no_violation (cfg : Cfg)
     simp only [runProgram]
     grind [Res.isViol, exViol]
 
+/-! ### 2. which violation: a violation of kind `k` needs limit `k` -/
+
+/-- A depth / call / recursion violation can only come out of a run whose configuration has the
+corresponding limit: each limit is the only source of its violation (so configuring one limit never
+produces another kind of violation). -/
+theorem violation_needs_its_limit (cfg : Cfg) (fuel : Nat) :
+    (∀ fr e tail st,
+      ((eval fuel cfg fr e tail st).1 = .viol .depth → cfg.depthLimit ≠ none) ∧
+      ((eval fuel cfg fr e tail st).1 = .viol .calls → cfg.callLimit ≠ none) ∧
+      ((eval fuel cfg fr e tail st).1 = .viol .recursion → cfg.recLimit ≠ none)) ∧
+    (∀ h c args st,
+      ((callUser fuel cfg h c args st).1 = .viol .depth → cfg.depthLimit ≠ none) ∧
+      ((callUser fuel cfg h c args st).1 = .viol .calls → cfg.callLimit ≠ none) ∧
+      ((callUser fuel cfg h c args st).1 = .viol .recursion → cfg.recLimit ≠ none)) ∧
+    (∀ ds,
+      ((runProgram fuel cfg ds).1 = .error (.viol .depth) → cfg.depthLimit ≠ none) ∧
+      ((runProgram fuel cfg ds).1 = .error (.viol .calls) → cfg.callLimit ≠ none) ∧
+      ((runProgram fuel cfg ds).1 = .error (.viol .recursion) → cfg.recLimit ≠ none)) := by
+  have H := kindAt cfg fuel
+  exact ⟨fun fr e tail st => H.eval fr e tail st, fun h c args st => H.callUser h c args st,
+    fun ds => H.evalDecls _ ds _⟩
+
+/-! ### 3. the call limit is exact for whole runs -/
+
+/-- Under a call limit `l`, for every run (any expression, any user call, any fuel) started with
+the counter below `l`: the counter never decreases; the run ends in the call violation exactly when
+the counter reaches `l` (it is then exactly `l`: nothing is counted after the violation), and
+otherwise the counter stays below `l`.  "The number of user calls since the last reset reaches L". -/
+theorem call_limit_exact_run (cfg : Cfg) (l : Nat) (hl : cfg.callLimit = some l) (fuel : Nat) :
+    (∀ fr e tail st, st.calls ≤ (eval fuel cfg fr e tail st).2.calls ∧
+      (st.calls < l →
+        ((eval fuel cfg fr e tail st).1 = .viol .calls ↔ (eval fuel cfg fr e tail st).2.calls = l) ∧
+        ((eval fuel cfg fr e tail st).1 ≠ .viol .calls ↔ (eval fuel cfg fr e tail st).2.calls < l))) ∧
+    (∀ h c args st, st.calls ≤ (callUser fuel cfg h c args st).2.calls ∧
+      (st.calls < l →
+        ((callUser fuel cfg h c args st).1 = .viol .calls ↔ (callUser fuel cfg h c args st).2.calls = l) ∧
+        ((callUser fuel cfg h c args st).1 ≠ .viol .calls ↔ (callUser fuel cfg h c args st).2.calls < l))) ∧
+    (∀ ds, 0 < l →
+        ((runProgram fuel cfg ds).1 = .error (.viol .calls) ↔ (runProgram fuel cfg ds).2.calls = l) ∧
+        ((runProgram fuel cfg ds).1 ≠ .error (.viol .calls) ↔ (runProgram fuel cfg ds).2.calls < l)) := by
+  have H := callsAt cfg l hl fuel
+  refine ⟨?_, ?_, ?_⟩
+  · intro fr e tail st
+    have := H.eval fr e tail st
+    grind
+  · intro h c args st
+    have := H.callUser h c args st
+    grind
+  · intro ds hpos
+    have := H.evalDecls { env := [], self := none, height := 0 } ds {}
+    simp only [runProgram]
+    grind
+
+/-- Without a call limit the counter is never touched, whatever the other limits. -/
+theorem calls_not_counted_without_limit (cfg : Cfg) (hl : cfg.callLimit = none) (fuel : Nat) :
+    (∀ fr e tail st, (eval fuel cfg fr e tail st).2.calls = st.calls) ∧
+    (∀ h c args st, (callUser fuel cfg h c args st).2.calls = st.calls) ∧
+    (∀ ds, (runProgram fuel cfg ds).2.calls = 0) := by
+  have H := noCountAt cfg hl fuel
+  exact ⟨fun fr e tail st => H.eval fr e tail st, fun h c args st => H.callUser h c args st,
+    fun ds => H.evalDecls _ ds _⟩
+
+/-! ### 4. the host's reset -/
+
+/-- `Runtime::reset_ud_calls` / `reset_call_limit` (`runtime.rs:131-163`) -/
+def reset (st : St) : St := { st with calls := 0 }
+
+/-- Resetting the call counter restores the full budget: whatever the counter was before (even at or
+beyond the limit), a run started from the reset state ends in the call violation exactly when it has
+itself made `l` user calls, and it leaves the output untouched. -/
+theorem reset_restores (cfg : Cfg) (l : Nat) (hl : cfg.callLimit = some l) (hpos : 0 < l) (fuel : Nat)
+    (fr : Frame) (e : Core.Expr) (tail : Bool) (st : St) :
+    (reset st).out = st.out ∧ (reset st).calls = 0 ∧
+    ((eval fuel cfg fr e tail (reset st)).1 = .viol .calls ↔ (eval fuel cfg fr e tail (reset st)).2.calls = l) ∧
+    ((eval fuel cfg fr e tail (reset st)).1 ≠ .viol .calls ↔ (eval fuel cfg fr e tail (reset st)).2.calls < l) := by
+  have H := (callsAt cfg l hl fuel).eval fr e tail (reset st)
+  have h0 : (reset st).calls = 0 := rfl
+  refine ⟨rfl, rfl, ?_, ?_⟩ <;> grind
+
+/-! ### concrete runs: the bounds are attained -/
+
+/-- `fn f(x) = x; let y = f(1);` -/
+def progOneCall : List Decl :=
+  [.fnD (.mk (some "f") [.mk "x" none] [] (.var "x")), .letD "y" (.call "f" [.int 1])]
+
+example : (runProgram 10 { callLimit := some 1 } progOneCall).1 = .error (.viol .calls) := by rfl
+example : (runProgram 10 { callLimit := some 1 } progOneCall).2.calls = 1 := by rfl
+example : ∃ fr, (runProgram 10 { callLimit := some 2 } progOneCall).1 = .ok fr := ⟨_, rfl⟩
+example : (runProgram 10 { depthLimit := some 1 } progOneCall).1 = .error (.viol .depth) := by rfl
+example : ∃ fr, (runProgram 10 { depthLimit := some 2 } progOneCall).1 = .ok fr := ⟨_, rfl⟩
+
+/-- `fn g(n) = if(eq(n, 0), 0, g(sub(n, 1))); let y = g(2);` — two tail iterations -/
+def progLoop : List Decl :=
+  [.fnD (.mk (some "g") [.mk "n" none] []
+      (.call "if" [.call "eq" [.var "n", .int 0], .int 0, .call "g" [.call "sub" [.var "n", .int 1]]])),
+   .letD "y" (.call "g" [.int 2])]
+
+example : (runProgram 20 { recLimit := some 1 } progLoop).1 = .error (.viol .recursion) := by rfl
+example : ∃ fr, (runProgram 20 { recLimit := some 2 } progLoop).1 = .ok fr := ⟨_, rfl⟩
+-- the two tail iterations are not counted as calls: one user call in all
+example : (runProgram 20 { callLimit := some 5 } progLoop).2.calls = 1 := by rfl
+-- without tail calls the same program makes three user calls and nests three deep
+example : (runProgram 40 { callLimit := some 5, tco := false } progLoop).2.calls = 3 := by rfl
+example : (runProgram 40 { depthLimit := some 3, tco := false } progLoop).1 = .error (.viol .depth) := by rfl
+example : ∃ fr, (runProgram 40 { depthLimit := some 4, tco := false } progLoop).1 = .ok fr := ⟨_, rfl⟩
+
+
 /-! ### local exactness of the three checks (one step of `callUser` / `tramp`) -/
 
 /-- The call limit is exact: a user call (with error-free arguments) under call limit `l` ends in the
